@@ -28,6 +28,21 @@ def pytest_configure(config):
     sanitize.poison_on()
     mon = sanitize.CallMonitor(report, shadow=os.environ.get('VF_AMBIENT_SHADOW', '0') == '1', library_only=True, count=counts)
     mon.install()
+    if os.environ.get('VF_AMBIENT_LINCOMB', '0') == '1':
+        # C01: the lincomb / multiply / divide contract on every call the suite makes
+        from vf.props import c01
+
+        class Rec(object):
+            def ev(self, name, n=1):
+                counts[name] = counts.get(name, 0) + n
+
+            def violation(self, comp, cfg, kind, **detail):
+                key = (comp, cfg.split(';a=')[0], kind)
+                viol[key] = viol.get(key, 0) + 1
+
+            def note_add(self, key, n=1):
+                counts[key] = counts.get(key, 0) + n
+        c01.Contract(Rec()).install()
     _STATE.update(viol=viol, counts=counts, sanitize=sanitize)
 
 
